@@ -124,7 +124,8 @@ def inline(r, c: Ctx, depth=0) -> str:
         return r.choice(["$a=1$", "$$b$$", "$ spaced $", "1$ x $2"])
     if k < 0.95 and c.on("html_inline"):
         return r.choice(["<span class=\"x\">s</span>", "<b>b</b>", "<img src=\"img.png\" alt=\"a\">",
-                         "<img src=img.png height>", "<br>", "<!-- c -->", "<unclosed", "<a href='x'>"])
+                         "<img src=img.png height>", "<br>", "<!-- c -->", "<unclosed", "<a href='x'>",
+                         "<img src>", "<img class src=\"img.png\">"])
     if k < 0.97 and "attrs_inline" in c.ext:
         return r.choice([f"[{w}]{{.cls #{c.new_label()}}}" if c.allow_labels else f"[{w}]{{.cls}}", "`c`{.lang}", "![a](img.png){width=10px}",
                          f"[{w}]{{bad=}}", f"[{w}](https://x.y){{target=_blank}}"])
@@ -214,7 +215,9 @@ def b_admonition(r, c, depth):
     if r.random() < 0.2 and c.allow_labels:
         opts["name"] = c.new_label()
     if r.random() < 0.12:
-        opts[r.choice(["unknownopt", "class"])] = r.choice(["[unclosed", "'a", "&ref", "*ali", "{a: 1}", "x"])
+        opts[r.choice(["unknownopt", "class"])] = r.choice([
+            "[unclosed", "'a", "&ref", "*ali", "{a: 1}", "x", "\"\\UFFFFFFFF\"", "\"\\U0011FFFF\"", "\"\\uD800\"",
+            "\"\\x4\"", "\"\\q\"", "\"unterminated", "| block", "> folded", "!!tag x", "\"a\\\nb\""])
     body = "\n\n".join(block(r, c, depth + 1) for _ in range(r.randint(1, 2)))
     return _fence(r, c, name, arg, opts, body)
 
@@ -356,6 +359,9 @@ def b_html(r, c, depth):
         "<div class=\"admonition\"><div></p></div>",
         "<?php echo 1 ?>",
         "<script>alert(1)</script>",
+        "<img src>", "<img src alt=x>", "<img alt>", "<div class>\nx\n</div>", "<div class name>\n<p class>t</p>\n</div>",
+        "<div class=\"admonition\" name>\nx\n</div>", "<img src=\"img.png\" width class name align>",
+        "<div>\n<![x] foo>\n</div>", "<div class=\"admonition\">\n<img src>\n</div>",
     ])
 
 
